@@ -527,7 +527,8 @@ impl World {
             }
             Some(Caught::Ok(false)) => self.violate("C08.option", "the arena was Marked but mark_debt returned no MarkedArena".into()),
             Some(Caught::Injected) | Some(Caught::Stopped) => {}
-            Some(Caught::Unexpected(m)) => self.violate("C10.panic", format!("start_sweeping panicked: {m}")),
+            // a start_sweeping that panics did not end Sweeping either (C08)
+            Some(Caught::Unexpected(m)) => self.violate_with("C10.panic", &["C08.transition"], format!("start_sweeping panicked instead of returning: {m}")),
             None => {}
         }
         self.check_metrics(a);
